@@ -2,7 +2,7 @@ SPECIFICATION Spec
 CONSTANTS
   MaxDim = 3
   MaxNf = 2
-  Vals = {7, 8}
+  Vals = {7}
   MaxOps = 2
   ShapeSet = "large"
   MCTypes = {"UNDEF", "S", "T", "Y", "ZIN", "BAD"}
